@@ -30,6 +30,7 @@
 
 SimKnobs K;
 int sim_stack_junk = -1;
+size_t sim_stack_shift;   /* bytes (multiple of 16) cut off the top of every new task stack: stack-address diversity, like ASLR */
 bool sim_time_capped;
 SimStats S;
 SimHooks sim_hooks;
@@ -188,6 +189,7 @@ struct SimTask {
     int prio; const char *ykind;
     uint64_t start_at;
     bool nosignal;
+    char *scrib_low;   /* lowest stack pointer seen since the last scribble */
 };
 #define MAXT 512
 #define MAXP 512
@@ -276,7 +278,7 @@ static SimTask *task_new(SimProc *p) {
             memset((char *)t->stack + t->stack_sz - fill, sim_stack_junk & 0xff, fill);
         }
         getcontext(&t->ctx);
-        t->ctx.uc_stack.ss_sp = t->stack; t->ctx.uc_stack.ss_size = t->stack_sz; t->ctx.uc_link = NULL;
+        t->ctx.uc_stack.ss_sp = t->stack; t->ctx.uc_stack.ss_size = t->stack_sz - (sim_stack_shift & ~(size_t)15); t->ctx.uc_link = NULL;
         makecontext(&t->ctx, task_trampoline, 0);
         t->prio = (int)sim_choose(CH_SCHED, 1000000) + 1000;
         return t;
@@ -441,9 +443,30 @@ int sim_run(void) {
 }
 
 /* basic-block callback of the instrumented images */
-NOSAN void __sanitizer_cov_trace_pc(void) {
+int sim_stack_scribble = -1;   /* -1 off, else junk byte written over the dead stack below the running frame */
+/* The callback the images call is the assembly stub below: it runs this function and then, when stack scribbling is on,
+ * overwrites its own dead frame area and the slot of its return address, so that nothing deterministic is left right
+ * below the caller's stack pointer (that is exactly where the next callee puts its locals). */
+uint64_t sim_scribble_pat; int sim_scribble_on;
+NOSAN void sim_trace_pc_c(void) {
     if (!cur) return;
     S.blocks++;
+    sim_scribble_on = sim_stack_scribble >= 0; sim_scribble_pat = 0x0101010101010101ull * (uint64_t)(sim_stack_scribble & 0xff);
+    if (sim_stack_scribble >= 0) {
+        /* memory below the stack pointer (past the 128-byte red zone) is dead by the ABI: overwrite it, so that a local
+         * read before it is written yields a byte that differs between configurations instead of the stable residue
+         * of earlier calls */
+        char *sp; __asm__ volatile("mov %%rsp, %0" : "=r"(sp));
+        char *lo_limit = (char *)cur->stack + 4096;
+        if (cur->scrib_low == NULL || sp < cur->scrib_low) cur->scrib_low = sp;          /* going deeper */
+        else if (sp > cur->scrib_low + 256) {                                              /* came back up: what the returned calls used is dead */
+            uint64_t pat = 0x0101010101010101ull * (uint64_t)(sim_stack_scribble & 0xff);
+            volatile uint64_t *q = (volatile uint64_t *)(((uintptr_t)sp - 16) & ~(uintptr_t)7);   /* this callback is not a leaf: it owns no red zone */
+            char *stop = cur->scrib_low - 8192; if (stop < lo_limit) stop = lo_limit;
+            while ((char *)(q - 1) > stop) *--q = pat;
+            cur->scrib_low = sp;
+        }
+    }
     if (K.max_blocks && S.blocks > K.max_blocks && (S.blocks & 1023) == 0) { sim_yield("f"); return; }
     if (--preempt_countdown > 0) return;
     preempt_countdown = 1L << 40;
@@ -452,6 +475,14 @@ NOSAN void __sanitizer_cov_trace_pc(void) {
     sim_yield("p");
     /* countdown is re-armed by the scheduler when we are resumed */
 }
+
+__asm__(".text\n.globl __sanitizer_cov_trace_pc\n.type __sanitizer_cov_trace_pc,@function\n__sanitizer_cov_trace_pc:\n"
+        " sub $8,%rsp\n call sim_trace_pc_c\n add $8,%rsp\n"
+        " movl sim_scribble_on(%rip),%eax\n test %eax,%eax\n jz 2f\n"
+        " movq sim_scribble_pat(%rip),%rax\n lea -320(%rsp),%rdx\n"
+        "1: movq %rax,(%rdx)\n add $8,%rdx\n cmp %rsp,%rdx\n jb 1b\n"
+        " pop %rcx\n movq %rax,-8(%rsp)\n jmp *%rcx\n"
+        "2: ret\n");
 
 /* ======================================================================
  * spawn
